@@ -69,24 +69,34 @@ def run(rep, tier, seed):
             rep.cov["evaluations"] += results[0]["paths"]
             for ln in other:
                 if ln.startswith("IMG "):
-                    recs.append(json.loads(ln[4:]))
+                    recs.append(dict(json.loads(ln[4:]), tier=tier))
     rejected = codec.validate(rep, recs, "c02_" + tier, "C02")
     byname = {r["name"]: r for r in recs}
     for nm in rejected:
         r = byname[nm]
+        extra = [m for m in r.get("ownedMembers", []) if m not in codec.owned_members().get(r["cls"], ())]
         if not r["complete"]:
             kinds = ["decode"]
         elif not r["identity"]:
             kinds = ["identity"]
-        elif r["derivedBad"]:
-            bv = r.get("badValues", {})
-            kinds = ["derived:b%d:v%s" % (k, bv.get(str(k), "")) for k in r.get("badOffsets", [])] or ["derived"]
         else:
-            kinds = ["registry"]
+            kinds = []
+            if r["derivedBad"]:
+                bv = r.get("badValues", {})
+                kinds += ["derived:b%d:v%s" % (k, bv.get(str(k), "")) for k in r.get("badOffsets", [])] or ["derived"]
+            kinds += ["overwrite:%s" % m for m in extra]
+            floor = scope_floor(r["name"], tier)
+            if r.get("inScope", 0) < floor:
+                kinds.append("scope")
+                r["firstBad"] = (r.get("firstBad", "") + " only %d of the %d derived images that are in scope for the format are "
+                                 "still decoded completely with the same shape" % (r.get("inScope", 0), floor)).strip()
+            if not kinds:
+                kinds = ["registry"]
         for kind in kinds:
             rep.violation("image:%s:%s" % (r["cls"], kind), "Framing.tla (ImageOK) rejects %s (%s): identity=%s complete=%s "
-                          "derived ok/bad=%d/%d %s" % (nm, r["cls"], r["identity"], r["complete"], r["derivedOk"],
-                                                      r["derivedBad"], r.get("firstBad", "")), r)
+                          "derived ok/bad=%d/%d %s%s" % (nm, r["cls"], r["identity"], r["complete"], r["derivedOk"],
+                                                        r["derivedBad"], r.get("firstBad", ""),
+                                                        " encoder overwrites " + kind[10:] if kind.startswith("overwrite:") else ""), r)
     rep.cov["evaluations"] += sum(r.get("derivedOk", 0) + r.get("derivedBad", 0) + r.get("notAField", 0) for r in recs)
     rep.cov["derived_images"] = sum(r.get("derivedOk", 0) + r.get("derivedBad", 0) for r in recs)
     rep.cov["images"] = len(recs)
@@ -99,3 +109,17 @@ def run(rep, tier, seed):
         raise vlib.ToolError("%d of %d images processed" % (len(recs), n))
     rep.assumptions += ["the image extractor (tools/refimages.py) is trusted", "derived images outside the property's "
                         "precondition (decode incomplete or shape changed) are skipped, not judged"]
+
+
+_scope = None
+
+
+def scope_floor(name, tier):
+    """InScopeFloor of ImageScope.tla, parsed for labelling only (the decision is TLC's)"""
+    global _scope
+    if _scope is None:
+        import re
+        _scope = {}
+        for m in re.finditer(r'\("([^"]+)" :> <<(\d+), (\d+)>>\)', open(os.path.join(vlib.SPEC, "ImageScope.tla")).read()):
+            _scope[m.group(1)] = (int(m.group(2)), int(m.group(3)))
+    return _scope.get(name, (0, 0))[0 if tier == "quick" else 1]
